@@ -108,6 +108,7 @@ def pin_hash(pid):
 def ensure_makefile():
     mk = os.path.join(COQ, "Makefile")
     cp = os.path.join(COQ, "_CoqProject")
+    sh([sys.executable, os.path.join(ROOT, "tools", "mkcoqproject.py")], cwd=ROOT)
     if not os.path.exists(mk) or os.path.getmtime(mk) < os.path.getmtime(cp):
         sh("coq_makefile -f _CoqProject -o Makefile", cwd=COQ)
     os.makedirs(os.path.join(COQ, "out"), exist_ok=True)
@@ -144,9 +145,10 @@ def stage_audit(pid, log):
     names, leftover = props_theorems(pid)
     if leftover:
         problems.append(f"Props/{pid}.v contains more than Theorem/exact/Print Assumptions: {leftover[:200]!r}")
-    pins = json.load(open(os.path.join(ROOT, "tools", "pins.json")))
-    if pins.get(pid) != pin_hash(pid):
-        problems.append(f"Props/{pid}.v statements differ from the pinned hash (tools/pins.json); "
+    pinf = os.path.join(ROOT, "tools", "pins", pid + ".sha256")
+    pinned = open(pinf).read().strip() if os.path.exists(pinf) else None
+    if pinned != pin_hash(pid):
+        problems.append(f"Props/{pid}.v statements differ from the pinned hash (tools/pins/<id>.sha256, update with tools/pin.py); "
                         f"now {pin_hash(pid)}")
     axioms = {}
     discharged = []
